@@ -43,7 +43,8 @@ RULE = ('random schemas (1-4 classes, 0-3 associations with 0-3 key attributes o
         'attribute, identifiers, classes inferred from INSERTs) populated from '
         'a pool of <= 4 values per type; per population: ALL permutations of the statements when there are <= 7 '
         '(quick: <= 6, and <= 7 on a sample), 50 random permutations otherwise; random partitions into 1-4 input '
-        'calls / files / directory chain / wide directory / zip members / one file through the bridgepoint loader; '
+        'calls / files / directory chain / wide directory / zip members / one file through the bridgepoint loader, each part '
+        'ending with a newline, right after its last `;`, with a `-- comment` that no newline ends, or with a bare `--`; '
         'API and clone construction; rejected inputs (duplicate class, unknown class or key in an association or '
         'identifier, key lists of different length, named INSERT with unequal lengths). Non-trivial = some association has both a linked and an '
         'unlinked (null, dangling) candidate pair; distinct = distinct statement text')
@@ -281,6 +282,22 @@ def _parsed(stmts, cache):
     return cache['objs'], cache['loader']
 
 
+def _part_text(p, n, v):
+    """the text of part number n of a variant.  How a part ENDS is varied (chosen from the variant, so a replay writes
+    the same bytes): with a newline; right after the last `;`; with a `-- comment` that no newline terminates; with a
+    bare `--`.  Every part is a text of its own (an input call, a file, a zip member): whatever ends one part must
+    not reach into the next."""
+    text = G.text_of(p) if p else ''
+    style = (sum(v['order'][:3]) + 3 * n + len(v['parts'])) % 4
+    if style == 1:
+        return text[:-1] if text.endswith('\n') else text
+    if style == 2:
+        return text + '-- end of part %d' % n
+    if style == 3:
+        return text + '--'
+    return text
+
+
 def _load(stmts, v, mine, cache=None):
     """-> (metamodel, order in which the loader saw the statements); may raise a documented exception"""
     route = v['route']
@@ -292,8 +309,8 @@ def _load(stmts, v, mine, cache=None):
     parts = _parts(stmts, v)
     if route == 'input':
         l = _x.ModelLoader()
-        for p in parts:
-            l.input(G.text_of(p))
+        for n, p in enumerate(parts):
+            l.input(_part_text(p, n, v))
         return l.build_metamodel(), v['order']
     d = tempfile.mkdtemp(dir=_tmp)
     try:
@@ -302,7 +319,7 @@ def _load(stmts, v, mine, cache=None):
             for n, p in enumerate(parts):
                 fn = os.path.join(d, 'p%d.sql' % n)
                 with open(fn, 'w') as f:
-                    f.write(G.text_of(p))
+                    f.write(_part_text(p, n, v))
                 names.append(fn)
             return _x.load_metamodel(names if len(names) > 1 else names[0]), v['order']
         l = _bp.ModelLoader(load_globals=False)
@@ -319,7 +336,7 @@ def _load(stmts, v, mine, cache=None):
                 f.write(decoy)
             for n, p in enumerate(parts):
                 with open(os.path.join(cur, 'p%d.xtuml' % n), 'w') as f:
-                    f.write(G.text_of(p))
+                    f.write(_part_text(p, n, v))
                 if route == 'bp-dir':
                     # one file per directory level: os.walk visits a directory's files before its sub-directories
                     cur = os.path.join(cur, 'sub')
@@ -330,7 +347,7 @@ def _load(stmts, v, mine, cache=None):
             with zipfile.ZipFile(fn, 'w') as z:
                 z.writestr('readme.txt', decoy)
                 for n, p in enumerate(parts):
-                    z.writestr(('sub%d/' % n if n % 2 else '') + 'p%d.xtuml' % n, G.text_of(p))
+                    z.writestr(('sub%d/' % n if n % 2 else '') + 'p%d.xtuml' % n, _part_text(p, n, v))
             l.filename_input(fn)
         else:
             raise ValueError(route)
@@ -583,7 +600,7 @@ class _Cyclic(Exception):
     pass
 
 
-def _reads(stmts, raw, expected, pos, t, attr, seen=()):
+def _reads(stmts, raw, expected, pos, t, attr, seen=(), drop=()):
     """what `getattr(instance t, attr)` gives once the rows exist, by the statement alone: a referential attribute is
     read through the link of the association formalised LAST that links the instance (first partner in storage
     order), from the partner's corresponding identifying attribute; without any such link it reads None; any other
@@ -595,10 +612,10 @@ def _reads(stmts, raw, expected, pos, t, attr, seen=()):
     if not using:
         return raw[t].get(attr)
     for bi, b in reversed(using):
-        partners = sorted((t2 for (s2, t2) in expected[bi] if s2 == t), key=lambda i: pos[i])
+        partners = [] if t in drop else sorted((t2 for (s2, t2) in expected[bi] if s2 == t), key=lambda i: pos[i])
         if partners:
             return _reads(stmts, raw, expected, pos, partners[0], dict(zip(b['skeys'], b['tkeys']))[attr],
-                          seen + ((t, attr),))
+                          seen + ((t, attr),), drop)
     return None
 
 
@@ -611,17 +628,17 @@ def _api_guard(stmts, raw, expected):
     return None
 
 
-def _predicted(stmts, raw, expected, order):
+def _predicted(stmts, raw, expected, order, drop=()):
     """the pairs `new` can find: a referred row is found through its identifying attributes AS READ from the
     instance (open finding api-dangling-chained-key: one that is itself referential reads None when the row's own
-    reference is dangling or null)"""
+    reference is dangling or null); `drop`: rows whose own links are taken to be missing (their `new` was aborted)"""
     pos = dict((i, k) for k, i in enumerate(order))
     out = {}
     for ai, pairs in expected.items():
         a = stmts[ai]
         keep = set()
         for (s, t) in pairs:
-            if all(_reads(stmts, raw, expected, pos, t, tk) == raw[t].get(tk) for tk in a['tkeys']):
+            if all(_reads(stmts, raw, expected, pos, t, tk, (), drop) == raw[t].get(tk) for tk in a['tkeys']):
                 keep.add((s, t))
         out[ai] = keep
     return out
@@ -713,6 +730,10 @@ def _check_api(route, stmts, raw, order, dump, outcomes, expected, fail, modelle
                 return True
         return False
 
+    # a row whose new() was aborted by a justified RelateException may lack any of its own links: what the others
+    # read through it lies between "all of them" (pred) and "none of them" (pred_lo)
+    aborted = set(s_ for s_ in rel_rows if justified(s_))
+    pred_lo = _predicted(stmts, raw, expected, order, aborted) if aborted else pred
     for ai, (f, b) in sorted(links.items()):
         a = stmts[ai]
         want = pred[ai]
@@ -731,7 +752,7 @@ def _check_api(route, stmts, raw, order, dump, outcomes, expected, fail, modelle
             fail('%s-links-differ' % route, what)
             return None
         for (s, t) in sorted(want - f):
-            if s in rel_rows and justified(s):
+            if s in aborted or (s, t) not in pred_lo[ai]:
                 findings.setdefault('api-cardinality-rejected', what)
             elif (s in bad_rows or t in bad_rows) and (stmts[s]['kind'] in phr_kinds or stmts[t]['kind'] in phr_kinds):
                 findings.setdefault('api-phrased-direction', what)      # a new() that a phrased association aborted
